@@ -12,6 +12,8 @@ The code is mirrored as it is (file + line numbers of /repo in the comments):
   correspondence therefore compares bit-exactly only on the exactness regime (DESIGN.md 3.2).
 * truthiness `if x:` / `if not x:` of a number is `truthy x = !(x == 0)`.
 * `inf`, `nan`, `sqrt` and `t ** (1./p)` are parameters (`Consts`): an ordered field need not have them.
+* `median` / `mad` use a STABLE insertion sort for `numpy.sort` / `argsort`; the order numpy gives to EQUAL samples
+  that carry different weights is not modelled (the correspondence skips such cases).
 * Python exceptions (empty input to `max`, index out of range, ...) are NOT results of these total
   functions; the driver checks the corresponding preconditions first (`Drv/C18.lean`).
 No Mathlib imports: this file is linked into `mvdrv`.
